@@ -35,7 +35,7 @@ def gen_schedule(rng, system, T0, allow_noniso=True, duration=1e4):
 
 
 def gen_config(rng, system=None, tier='quick', allow_noniso=True, out_of_window=False, grid_class=None,
-               sites=None, allow_beta2=False, iterator=None, max_steps=None):
+               sites=None, allow_beta2=False, iterator=None, max_steps=None, allow_dtfrac=False):
     system = system or rng.choice(['alzr', 'nialcr', 'almgsi'], p=[0.45, 0.35, 0.2])
     system = str(system)
     cfg = precip.default_cfg(system)
@@ -90,6 +90,10 @@ def gen_config(rng, system=None, tier='quick', allow_noniso=True, out_of_window=
     # ---------------------------------------------------------------- volumes
     ratio = float(rng.uniform(0.7, 1.5))          # Vm_beta / Vm_alpha
     cfg['VmBeta'] = {p: float(cfg['VmAlpha'] * ratio) for p in phases}
+    # how the volumes are specified (molar volume / unit-cell volume / lattice parameter, atoms per unit cell)
+    if rng.random() < 0.6:
+        cfg['volSpec'] = {'alpha': {'type': str(rng.choice(['VM', 'VA', 'a'])), 'atoms': int(rng.choice([2, 4, 4]))},
+                          'beta': {p: {'type': str(rng.choice(['VM', 'VA', 'a'])), 'atoms': int(rng.choice([1, 2, 4, 8, 16]))} for p in phases}}
     # ---------------------------------------------------------------- nucleation sites
     site_pool = sites or SITES
     cfg['site'] = {}
@@ -168,6 +172,12 @@ def gen_config(rng, system=None, tier='quick', allow_noniso=True, out_of_window=
         cfg['effectiveDiffusion'] = bool(rng.random() < 0.5)
     if system == 'alzr' and allow_beta2 and rng.random() < 0.25:
         cfg['betaBinary'] = 2
+    # ---------------------------------------------------------------- solver step fractions (dt constraints of solve())
+    if allow_dtfrac and rng.random() < 0.3:
+        mn = float(rng.choice([1e-3, 0.03, 0.07, 0.3, 0.7]))
+        cfg['minDtFrac'] = mn
+        if rng.random() < 0.4:
+            cfg['maxDtFrac'] = float(max(mn, rng.choice([0.07, 0.3, 1.0])))
     # ---------------------------------------------------------------- step cap
     if max_steps is None:
         max_steps = 2500 if tier == 'quick' else 6000
@@ -187,3 +197,40 @@ def cfg_weight(cfg):
     if cfg['schedule']['kind'] != 'iso' and cfg['system'] == 'alzr':
         per = 700.0
     return per * cfg['max_steps'] * max(1, len(cfg['phases']) / 2)
+
+
+def gen_dissolution_config(rng, system='nialcr', tier='quick'):
+    """Age, then heat far above the solvus so that the precipitates dissolve completely (a regime of its own:
+    the 'phase has no precipitates' branches are entered with non-zero previous values)."""
+    cfg = precip.default_cfg(system)
+    cfg['iterator'] = str(rng.choice(['euler', 'rk4'], p=[0.7, 0.3]))
+    cfg['constraints'] = {'dtScale': 0.3}
+    if system == 'alzr':
+        cfg['x0'] = [float(rng.uniform(3.5e-3, 6e-3))]
+        T1, T2 = float(rng.uniform(720, 770)), float(rng.uniform(1150, 1300))
+        t_age = float(np.exp(rng.uniform(np.log(3e3), np.log(3e4))))
+        t_ramp = float(rng.uniform(50, 500))
+        t_hold = float(np.exp(rng.uniform(np.log(2e2), np.log(5e3))))
+        cfg['constraints']['maxTempChange'] = float(rng.choice([10.0, 25.0]))      # a table rebuild costs ~0.3-1 s
+        cfg['pbm'] = {'cMin': 1e-10, 'cMax': 5e-9, 'bins': 32, 'minBins': 24, 'maxBins': 48, 'adaptive': True}
+    elif system == 'nialcr':
+        cfg['x0'] = [float(rng.uniform(0.10, 0.115)), float(rng.uniform(0.07, 0.09))]
+        T1, T2 = float(rng.uniform(1030, 1080)), float(rng.uniform(1400, 1500))
+        t_age = float(np.exp(rng.uniform(np.log(20), np.log(500))))
+        t_ramp = float(rng.uniform(5, 50))
+        t_hold = float(np.exp(rng.uniform(np.log(50), np.log(2e3))))
+    else:
+        T1, T2 = float(rng.uniform(440, 470)), float(rng.uniform(800, 850))
+        t_age = float(np.exp(rng.uniform(np.log(5e3), np.log(3e4))))
+        t_ramp = float(rng.uniform(50, 500))
+        t_hold = float(np.exp(rng.uniform(np.log(2e2), np.log(5e3))))
+    h = 1.0 / 3600.0
+    cfg['schedule'] = {'kind': 'array', 'hours': [0.0, t_age * h, (t_age + t_ramp) * h, (t_age + t_ramp + t_hold) * h],
+                       'temps': [T1, T1, T2, T2]}
+    if rng.random() < 0.5:
+        cfg['segments'] = [t_age, t_ramp + t_hold]
+    else:
+        cfg['segments'] = [t_age + t_ramp + t_hold]
+    cfg['max_steps'] = 5000 if tier == 'quick' else 8000
+    cfg['dissolution'] = True
+    return cfg
